@@ -281,6 +281,10 @@ def gen_freq(rng, variant):
         case["cpus"].append(d)
     if variant == "cpuinfo" and rng.random() < 0.2:
         case["mhz"] = False          # ARM-like: nothing exposed at all
+    if variant == "policy" and n >= 4 and not case["offline"] and rng.random() < 0.35:
+        # CPUs share a frequency policy (one per cluster / package): fewer policy directories than "cpu MHz" lines, and the
+        # clusters run at different speeds
+        case["shared"] = rng.choice([2, 4]) if n >= 8 else 2
     return case
 
 
@@ -586,8 +590,13 @@ def render_freq(t, case):
         if layout == "policy":
             if c in off and case["offline_style"] == "removed":
                 continue
+            g_ = case.get("shared")
+            if g_:
+                os.symlink(f"../cpufreq/policy{c - c % g_}", t.real("cpu", f"cpu{c}/cpufreq"))
+                if c % g_:
+                    continue            # the cluster's policy directory is the leader's
             base = f"cpufreq/policy{c}"
-            if c not in off:
+            if c not in off and not g_:
                 os.symlink(f"../cpufreq/policy{c}", t.real("cpu", f"cpu{c}/cpufreq"))
         else:
             if c in off:
@@ -608,7 +617,8 @@ def render_freq(t, case):
     if layout == "policy":
         t.mkdir("cpu", "cpufreq")
     if case["mhz"]:
-        ci = cpuinfo_x86(online, mhz={c: case["cpus"][c]["cur"] for c in online})
+        g_ = case.get("shared") or 1
+        ci = cpuinfo_x86(online, mhz={c: case["cpus"][c - c % g_]["cur"] for c in online})
     else:
         ci = cpuinfo_arm(online)
     return {"cpuinfo": ci, "stat": render_stat(online)}
@@ -1014,6 +1024,8 @@ def exp_freq(case):
     def ent(c):
         d = case["cpus"][c]
         return (Fraction(d["cur"], 1000), Fraction(d["min"], 1000), Fraction(d["max"], 1000))
+    if case.get("shared"):
+        return [[ent(c) for c in online if c % case["shared"] == 0]]
     only_online = [ent(c) for c in online]
     if case["variant"] == "policy" and case["offline"] and case["offline_style"] == "ebusy":
         z = (Fraction(0), Fraction(0), Fraction(0))
